@@ -15,6 +15,7 @@ import (
 	"testing"
 	"time"
 
+	"github.com/refraction-networking/conjure/pkg/core"
 	cj "github.com/refraction-networking/conjure/pkg/station/lib"
 	"github.com/refraction-networking/conjure/pkg/transports/wrapping/prefix"
 	pb "github.com/refraction-networking/conjure/proto"
@@ -112,6 +113,16 @@ type c10Reg struct {
 	at     time.Time
 	used   [2]bool
 	regstr string // registrant as the station will render it
+	msg    []byte // the registration message as published (for repeats)
+	udp    bool   // registered for the UDP stand-in transport
+}
+
+// c10ProtoTag is the protocol letter of the detector's session key.
+func c10ProtoTag(g *c10Reg) string {
+	if g.udp {
+		return "u"
+	}
+	return "t"
 }
 
 func c10Scenario(r *sim.Run) {
@@ -128,6 +139,8 @@ func c10Scenario(r *sim.Run) {
 		return
 	}
 	defer w.close()
+	// the UDP stand-in transport (its Connect fails at once; this world is about announcements)
+	w.rm.AddTransport(pb.TransportType_DTLS, &c17Connecting{w: w, cli: &net.TCPAddr{IP: net.IPv4(198, 51, 100, 9), Port: 5000}, shape: len(c17ConnectErrors) - 1})
 	det := &c10Detector{sessions: map[string]time.Duration{}}
 	consumed := 0
 	nNew, nUpd, nClear := 0, 0, 0
@@ -187,8 +200,12 @@ func c10Scenario(r *sim.Run) {
 					ga, _ := netip.AddrFromSlice(g.ph[fam])
 					if ok && pa.Unmap() == ga.Unmap() && uint16(m.GetDstPort()) == g.port[fam] {
 						found = true
-						if m.GetProto() != pb.IPProto_Tcp {
-							wrong = fmt.Sprintf("proto %v for a %s registration", m.GetProto(), stTransportName(g.c.tt))
+						wantProto := pb.IPProto_Tcp
+						if g.udp {
+							wantProto = pb.IPProto_Udp
+						}
+						if m.GetProto() != wantProto {
+							wrong = fmt.Sprintf("proto %v for a registration whose transport runs over %v", m.GetProto(), wantProto)
 							continue
 						}
 						ca, cok := rustParseIP(m.GetClientIp())
@@ -240,17 +257,60 @@ func c10Scenario(r *sim.Run) {
 				pa = pa.Unmap()
 				tag := ""
 				if pa.Is6() {
-					tag = fmt.Sprintf("t-_-%s-:%d", pa, g.port[fam])
+					tag = fmt.Sprintf("%s-_-%s-:%d", c10ProtoTag(g), pa, g.port[fam])
 				} else {
 					ca, ok := rustParseIP(g.regstr)
 					if !ok {
 						continue
 					}
-					tag = fmt.Sprintf("t-%s-%s-:%d", ca.Unmap(), pa, g.port[fam])
+					tag = fmt.Sprintf("%s-%s-%s-:%d", c10ProtoTag(g), ca.Unmap(), pa, g.port[fam])
 				}
 				exp, ok := det.sessions[tag]
 				if !ok || exp <= now {
 					r.Fail("C10/session-not-forwarded/"+map[bool]string{true: "used", false: "unused"}[g.used[fam]], "%s: the station still matches connections for %s (age %v, used=%v) but the detector holds no live session %q (expiry %v, now %v)", when, g.ph[fam], age, g.used[fam], tag, exp, now)
+					return false
+				}
+			}
+		}
+		return true
+	}
+
+	afterSweep := func() bool {
+		now := r.Elapsed()
+		for _, g := range regs {
+			for fam := 0; fam < 2; fam++ {
+				if g.ph[fam] == nil {
+					continue
+				}
+				age := time.Since(g.at)
+				near := func(th time.Duration) bool { d := age - th; return d > -time.Second && d < time.Second }
+				if near(10*time.Minute) || near(6*time.Hour) {
+					continue
+				}
+				visible := false
+				for _, rg := range w.rm.GetRegistrations(g.ph[fam]) {
+					d := rg.(*cj.DecoyRegistration)
+					if string(d.Keys.SharedSecret) == string(g.c.keys.SharedSecret) {
+						visible = true
+					}
+				}
+				if !visible {
+					continue
+				}
+				pa, _ := netip.AddrFromSlice(g.ph[fam])
+				pa = pa.Unmap()
+				tag := ""
+				if pa.Is6() {
+					tag = fmt.Sprintf("%s-_-%s-:%d", c10ProtoTag(g), pa, g.port[fam])
+				} else {
+					ca, ok := rustParseIP(g.regstr)
+					if !ok {
+						continue
+					}
+					tag = fmt.Sprintf("%s-%s-%s-:%d", c10ProtoTag(g), ca.Unmap(), pa, g.port[fam])
+				}
+				if exp, ok := det.sessions[tag]; !ok || exp <= now {
+					r.Fail("C10/station-outlives-detector", "right after a sweep the station still tracks and matches %s (registered %v ago, used=%v), but the detector's session %q expired at %v (now %v): the lifetime the station applies is longer than the one it announced", g.ph[fam], age, g.used[fam], tag, exp, now)
 					return false
 				}
 			}
@@ -264,12 +324,17 @@ func c10Scenario(r *sim.Run) {
 		for i := 0; i < nregs && !r.Failed(); i++ {
 			var tt pb.TransportType
 			var params any
-			switch tp.Choose("transport", 3) {
+			udp := false
+			switch tp.Choose("transport", 4) {
 			case 0:
 				tt = pb.TransportType_Min
 			case 1:
 				tt = pb.TransportType_Prefix
 				params = &prefix.ClientParams{PrefixID: int32(tp.Choose("prefixid", 10)), RandomizeDstPort: tp.Bool("rand")}
+			case 3:
+				// a transport that runs over UDP (stand-in for the DTLS transport, registered below
+				// under its type); built from a min client, whose keys and phantoms it shares
+				tt, udp = pb.TransportType_Min, true
 			default:
 				tt = pb.TransportType_Obfs4
 			}
@@ -279,6 +344,13 @@ func c10Scenario(r *sim.Run) {
 				return
 			}
 			g := &c10Reg{c: c}
+			if udp {
+				c.tt, c.pparams = pb.TransportType_DTLS, nil
+				// client library generations before and after destination-port randomisation
+				c.libver = []uint32{c.libver, c.libver, 2, 0}[tp.Choose("udp-libver", 4)]
+				g.udp = true
+				r.Probe("udp_transport_registration")
+			}
 			switch tp.Choose("family", 3) {
 			case 1:
 				c.v6 = false
@@ -341,16 +413,35 @@ func c10Scenario(r *sim.Run) {
 			registrantV4 := regForm == 0 || regForm == 1
 			if c.v4 && registrantV4 {
 				g.ph[0] = c.phantom(false)
+				if g.udp {
+					// older library generations select their phantom differently; which address that is
+					// is not this world's question, so the selector itself is asked
+					if ks, err := core.GenSharedKeys(uint(c.libver), c.keys.SharedSecret, c.tt); err == nil {
+						if p, err := w.rm.PhantomSelector.Select(ks.ConjureSeed, uint(c.gen), uint(c.libver), false); err == nil {
+							g.ph[0] = p.IP().To4()
+						}
+					}
+				}
 				if ov4 != nil {
 					g.ph[0] = ov4
 				}
 				g.port[0] = c.dstPort(false)
+				if g.udp {
+					g.port[0] = 443
+				}
 				if ovPort != 0 {
 					g.port[0] = uint16(ovPort)
 				}
 			}
 			if c.v6 {
 				g.ph[1] = c.phantom(true)
+				if g.udp {
+					if ks, err := core.GenSharedKeys(uint(c.libver), c.keys.SharedSecret, c.tt); err == nil {
+						if p, err := w.rm.PhantomSelector.Select(ks.ConjureSeed, uint(c.gen), uint(c.libver), true); err == nil {
+							g.ph[1] = *p.IP()
+						}
+					}
+				}
 				if ov6 != nil {
 					g.ph[1] = ov6
 				}
@@ -358,6 +449,9 @@ func c10Scenario(r *sim.Run) {
 					g.ph[1] = nil // an IPv4 phantom needs an IPv4 registrant: not admitted
 				}
 				g.port[1] = c.dstPort(true)
+				if g.udp {
+					g.port[1] = 443
+				}
 				if ovPort != 0 {
 					g.port[1] = uint16(ovPort)
 				}
@@ -366,6 +460,7 @@ func c10Scenario(r *sim.Run) {
 			regs = append(regs, g)
 			r.Logf("registration %d: %s v4=%v v6=%v registrant form %d (%q) override %d -> phantoms %v ports %v", i, stTransportName(tt), c.v4, c.v6, regForm, g.regstr, override, g.ph, g.port)
 			r.Cover(stTransportName(tt), fmt.Sprint(c.v4, c.v6, regForm, override))
+			g.msg = msg
 			w.register(msg)
 			if !consume() || !temporal("after registration") {
 				return
@@ -374,11 +469,11 @@ func c10Scenario(r *sim.Run) {
 		// history: connects, idle, sweeps
 		nops := tp.Choose("nops", 8)
 		for op := 0; op < nops && !r.Failed(); op++ {
-			switch tp.Choose("op", 4) {
+			switch tp.Choose("op", 5) {
 			case 0: // connect (activation -> Update)
 				g := regs[tp.Choose("reg", len(regs))]
 				fam := tp.Choose("fam", 2)
-				if g.ph[fam] == nil || len(g.ph[fam]) != net.IPv4len && len(g.ph[fam]) != net.IPv6len || g.c.tt == pb.TransportType_Obfs4 {
+				if g.ph[fam] == nil || len(g.ph[fam]) != net.IPv4len && len(g.ph[fam]) != net.IPv6len || g.c.tt == pb.TransportType_Obfs4 || g.udp {
 					continue
 				}
 				if time.Since(g.at) > 9*time.Minute && !g.used[fam] {
@@ -407,10 +502,21 @@ func c10Scenario(r *sim.Run) {
 				time.Sleep(d)
 				r.Logf("idle %v", d)
 				r.Cover("idle", d.String())
+			case 2: // the same registration arrives again (client retry, second registrar)
+				g := regs[tp.Choose("reg", len(regs))]
+				w.register(g.msg)
+				r.Logf("repeat of registration %s", g.regstr)
+				r.Cover("repeat")
+				r.Probe("repeated_registration")
 			default:
 				w.rm.RemoveOldRegistrations()
 				r.Logf("sweep")
 				r.Cover("sweep")
+				// what survives a sweep is what the station itself considers alive: the detector must
+				// still forward it
+				if !consume() || !afterSweep() {
+					return
+				}
 			}
 			if !consume() || !temporal(fmt.Sprintf("after operation %d", op)) {
 				return
